@@ -291,6 +291,16 @@ FLAT = {
     'ident-chars': lambda n: 'a' * n + '{x:y}',
     'garbage-chars': lambda n: '}' * n + 'a{x:y}',
     'imports': lambda n: '@import "x";' * n,
+    # constructs left open: the tokenizer has to give up on STRING / URI / COMMENT before it completes them
+    'unterminated-string-chars': lambda n: 'a{x:"' + 's' * n,
+    'unterminated-string-then-newline': lambda n: 'a{x:"' + 's' * n + '\n;y:z}',
+    'unterminated-squote-chars': lambda n: "a{x:'" + 's' * n + '\n}',
+    'unterminated-url-chars': lambda n: 'a{x:url("' + 's' * n,
+    'unterminated-bare-url-chars': lambda n: 'a{x:url(' + 's' * n,
+    'unterminated-comment-chars': lambda n: 'a{x:y}/*' + 'c' * n,
+    'unterminated-import-string': lambda n: '@import "' + 's' * n,
+    'escape-run': lambda n: 'a{x:' + '\\61 ' * n + '}',
+    'open-attribute-selector': lambda n: 'a[b="' + 's' * n + '{x:y}',
 }
 
 
